@@ -77,3 +77,37 @@ __CPROVER_ensures ((mp_bitcnt_t) V_PREC (r) * 64 - 64 >= prec_in_bits && (mp_bit
 ''',
     'void h_mpf_init2 (void) { V_INSTALL_ALLOCATOR (); __mpf_struct F; mp_bitcnt_t b = nondet_ulong (); __gmpf_init2 (&F, b); free (F._mp_d); }',
     props=('C04', 'C13', 'C15'), contracts=('mpz.h', 'c11.h', 'mpf.h'), muts=[(r'\(prec \+ 1\) \* 8', '(prec) * 8')]))
+
+# ------------------------------------------------------------------ mpz_init_set / _ui / _si: a fresh block of exactly max(|size|,1) limbs, value copied limb for limb
+from c03_mpn import copy_loop
+_is = lifecycle('mpz_init_set', 'mpz/iset.c', '__gmpz_init_set',
+    '''void __gmpz_init_set (mpz_ptr w, mpz_srcptr u)
+__CPROVER_requires (__CPROVER_w_ok (w, sizeof (*w)) && V_WF (u) && !__CPROVER_same_object (w, u) && V_GHOSTS_OK)
+__CPROVER_assigns (*w)
+__CPROVER_ensures (V_WF (w) && V_SIZ (w) == V_SIZ (u) && V_ALLOC (w) == (V_ABSIZ (u) > 1 ? V_ABSIZ (u) : 1) && __CPROVER_is_fresh (V_PTR (w), (__CPROVER_size_t) V_ALLOC (w) * 8))
+__CPROVER_ensures (gk < V_ABSIZ (u) ==> V_PTR (w)[gk] == V_PTR (u)[gk]);
+''',
+    'void h_mpz_init_set (void) {\n  V_INSTALL_ALLOCATOR ();\n' + mpz_obj('U') + '  __mpz_struct W; gk = nondet_long (); gj = nondet_long (); gh = nondet_long ();\n  __gmpz_init_set (&W, &U);\n  free (W._mp_d); free (U._mp_d);\n}',
+    props=('C04', 'C03', 'C15'), muts=[(r'\(\(size\) > \(1\) \? \(size\) : \(1\)\)', '(size)'), (r'w->_mp_size = usize;', 'w->_mp_size = size;')], contracts=('mpn.h', 'mpz.h'))
+_is['functions'] = {'__gmpz_init_set': dict(loops={0: copy_loop(['gk'])})}
+UNITS.append(_is)
+UNITS.append(lifecycle('mpz_init_set_ui', 'mpz/iset_ui.c', '__gmpz_init_set_ui',
+    '''void __gmpz_init_set_ui (mpz_ptr dest, mpir_ui val)
+__CPROVER_requires (__CPROVER_w_ok (dest, sizeof (*dest)))
+__CPROVER_assigns (*dest)
+__CPROVER_ensures (V_WF (dest) && V_ALLOC (dest) == 1 && __CPROVER_is_fresh (V_PTR (dest), 8) && V_SIZ (dest) == (val != 0) && (val == 0 || V_PTR (dest)[0] == val));
+''',
+    'void h_mpz_init_set_ui (void) { V_INSTALL_ALLOCATOR (); __mpz_struct X; mpir_ui v = nondet_ulong (); __gmpz_init_set_ui (&X, v); free (X._mp_d); }',
+    props=('C04', 'C11', 'C15'), muts=[(r'size = val != 0;', 'size = 1;')]))
+_iss = lifecycle('mpz_init_set_si', 'mpz/iset_si.c', '__gmpz_init_set_si',
+    '''void __gmpz_init_set_si (mpz_ptr dest, mpir_si val)
+__CPROVER_requires (__CPROVER_w_ok (dest, sizeof (*dest)))
+__CPROVER_assigns (*dest)
+__CPROVER_ensures (V_WF (dest) && V_ALLOC (dest) == 1 && __CPROVER_is_fresh (V_PTR (dest), 8) && V_SIZ (dest) == (val > 0 ? 1 : (val < 0 ? -1 : 0)))
+__CPROVER_ensures (val == 0 || V_PTR (dest)[0] == (val < 0 ? -(mp_limb_t) val : (mp_limb_t) val));
+''',
+    'void h_mpz_init_set_si (void) { V_INSTALL_ALLOCATOR (); __mpz_struct X; mpir_si v = nondet_long (); __gmpz_init_set_si (&X, v); free (X._mp_d); }',
+    props=('C04', 'C11', 'C15'), muts=[(r'val >= 0 \? size : -size', 'val > 0 ? size : size')])
+_iss['drop_checks'] = ['--signed-overflow-check']; _iss['cbmc_flags'] = _iss['cbmc_flags'] + ['--no-signed-overflow-check']
+_iss['assumptions'] = ['mpz_init_set_si: -LONG_MIN wraps (gcc semantics); signed-overflow check off for this unit']
+UNITS.append(_iss)
